@@ -187,7 +187,7 @@ def run(ctx):
                     if changed:
                         what = "existing-file-changed" if tkey in before["files"] else "file-created"
                         ofails.append((f"{what}: after the failed dump to {sink} these paths differ: {sorted(changed)[:3]}", rep))
-                    wrote = [e for e in res["events"] if e[0] != "midwrite"]
+                    wrote = [e for e in res["events"] if e[0] != "midwrite" and (len(e) < 2 or tuple(e[1]) != meta)]
                     if wrote and not sink.endswith("fileobj"):
                         # T2: the model's trace for a failed dump is empty
                         mism.append(dict(what=f"file operations during a failed dump: {wrote[:3]} (model: none)", **rep))
